@@ -65,12 +65,18 @@ type Unit struct {
 func UnitFromProto(protoUnit *pb.PropellerUnit) (Unit, error) {
 	shards := make(ShardData, len(protoUnit.Shards.GetShards()))
 	for i, s := range protoUnit.Shards.GetShards() {
-		shards[i] = Shard(s.Data)
+		shards[i] = Shard(s.GetData())
 	}
 
 	// validate that all shard length is the same
 	// todo(rdr): What other validations should I do?
 	// todo(rdr): Should I do these validations here?
+	if len(shards) == 0 {
+		return Unit{}, errors.New("unit has no shards")
+	}
+	if len(protoUnit.MerkleRoot.GetElements()) != len(MessageRoot{}) {
+		return Unit{}, errors.New("unit has a malformed merkle root")
+	}
 	shardLen := len(shards[0])
 	for i := range shards[1:] {
 		if len(shards[i]) != shardLen {
@@ -80,7 +86,7 @@ func UnitFromProto(protoUnit *pb.PropellerUnit) (Unit, error) {
 
 	siblings := make([]merkle.Hash, len(protoUnit.MerkleProof.GetSiblings()))
 	for i, s := range protoUnit.MerkleProof.GetSiblings() {
-		copy(siblings[i][:], s.Elements)
+		copy(siblings[i][:], s.GetElements())
 	}
 
 	return Unit{
